@@ -18,7 +18,7 @@ def r2_ticks(ctx, F):
     wcs = F.one(r"Evaluator::<'v, 'a, 'e>::with_call_stack$")
     tick = F.one(r"Evaluator::<'v, 'a, 'e>::report_forward_progress$")
     handlers = [f for f in F.fns.values() if re.search(HANDLER_RE, f.qpath)]
-    ctx.floor("C15.R2", "instruction handlers", len(handlers), 50)
+    ctx.floor("C15.R2", "instruction handlers", len(handlers), 50, inventory=True)
     enters = set()  # functions that can open a new frame
     rev = cg.rev()
     st = [wcs.uid]
@@ -109,7 +109,7 @@ def r1_frames(ctx, F):
         for o in origins(f, c.args[-1]):
             if o[0] == "agg" and o[1].kind.startswith("agg closure "):
                 within.add(o[1].kind.rsplit(" @", 1)[1])
-    ctx.floor("C15.R1", "closures passed to with_call_stack", len(within), 3)
+    ctx.floor("C15.R1", "closures passed to with_call_stack", len(within), 3, inventory=True)
     FORWARDERS = {
         # callee-side forwarders: they run inside a frame already pushed by the caller of `invoke`
         r"<eval::compiler::def::DefGen<V> as values::traits::StarlarkValue<'v>>::invoke$":
@@ -128,7 +128,7 @@ def r1_frames(ctx, F):
         for c in f.calls:
             if not c.indirect and pat.search(c.name):
                 raw.append((f, c))
-    ctx.floor("C15.R1", "raw invocation sites", len(raw), 6)
+    ctx.floor("C15.R1", "raw invocation sites", len(raw), 6, inventory=True)
     for f, c in raw:
         # walk up closures: any enclosing closure is a `within` closure
         g = f
